@@ -93,6 +93,8 @@ func target() string {
 			fmt.Fprintf(&sb, "\t"+ctx+"\n", fmt.Sprintf("r%d()", j))
 		}
 		fmt.Fprintf(&sb, "\tvar w%d []int\n\t_ = w%d\n\tvar ww%d, www%d map[string]S\n\t_, _ = ww%d, www%d\n", j, j, j, j, j, j)
+		// comments for the MatchComment shapes: a named group that captures, one that captures nothing, no group, a block comment
+		fmt.Fprintf(&sb, "\t// ca%d: alpha beta\n\t// cb%d: tail\n\t// cc%d marker\n\t/* cd%d: block\n\t   comment */\n\t_ = gi // ce%d: trailing gi\n", j, j, j, j, j)
 	}
 	sb.WriteString("}\n")
 	return sb.String()
@@ -109,21 +111,38 @@ var sinkCtxs = []string{
 type shape struct {
 	name    string
 	pattern string // %d = J
+	hasY    bool   // binds $y next to $x (one of the two is absent at some sites, in both orders)
 }
 
 var shapes = []shape{
-	{"expr", "p%d($x)"},
-	{"exprlist", "p%d($*x)"},
-	{"stmt", "if q%d() { $x }"},
-	{"stmtlist", "if q%d() { $*x }"},
-	{"results-nil", "func fa%d() $x { $*_ }"},
-	{"results", "func fb%d() $x { $*_ }"},
-	{"params", "func fc%d($*x) $_ { $*_ }"},
-	{"params-unnamed", "func fd%d($*x) { $*_ }"},
-	{"type", "var w%d $x"},
-	{"names", "var ww%d, $*x map[string]S"},
-	{"sinkctx", "r%d()"},
+	{"expr", "p%d($x)", false},
+	{"exprlist", "p%d($*x)", false},
+	{"stmt", "if q%d() { $x }", false},
+	{"stmtlist", "if q%d() { $*x }", false},
+	{"results-nil", "func fa%d() $x { $*_ }", false},
+	{"results", "func fb%d() $x { $*_ }", false},
+	{"params", "func fc%d($*x) $_ { $*_ }", false},
+	{"params-unnamed", "func fd%d($*x) { $*_ }", false},
+	{"type", "var w%d $x", false},
+	{"names", "var ww%d, $*x map[string]S", false},
+	{"sinkctx", "r%d()", false},
+	{"comment", "ca%d: (?P<x>\\w+)", false},
+	{"comment-empty", "cb%d: (?P<x>zzz)?tail", false},
+	{"comment-nogroup", "cc%d marker", false},
+	{"comment-block", "cd%d: (?P<x>block\\s+comment)", false},
+	{"comment-trailing", "(?P<y>ce%d): trailing (?P<x>\\w+)", false},
+	{"two:list+expr", "p%d($*x, $y)", true},
+	{"two:expr+list", "p%d($y, $*x)", true},
+	{"two:nil+stmts", "func fa%d() $x { $*y }", true},
+	{"two:stmts+results", "func fb%d() $y { $*x }", true},
+	{"two:params+results", "func fc%d($*x) $y { $*_ }", true},
+	{"two:comment", "cb%d: (?P<x>zzz)?(?P<y>tail)", true},
 }
+
+func isComment(sh shape) bool { return strings.HasPrefix(sh.name, "comment") }
+
+// noX: shapes whose pattern does not bind $x
+func noX(sh shape) bool { return sh.name == "sinkctx" || sh.name == "comment-nogroup" }
 
 const prelude = `
 func okFilter(ctx *dsl.VarFilterContext) bool {
@@ -138,11 +157,25 @@ func sizeFilter(ctx *dsl.VarFilterContext) bool {
 func underFilter(ctx *dsl.VarFilterContext) bool {
 	return types.Identical(ctx.Type.Underlying(), ctx.GetType("error"))
 }
+
+func doText(ctx *dsl.DoContext) {
+	ctx.SetReport("text: " + ctx.Var("x").Text())
+	ctx.SetSuggest(ctx.Var("x").Text())
+}
+
+func doType(ctx *dsl.DoContext) {
+	ctx.SetReport("type: " + ctx.Var("x").Type().String() + " / " + ctx.Var("x").Type().Underlying().String())
+}
+
+func doOther(ctx *dsl.DoContext) {
+	ctx.SetSuggest(ctx.Var("nosuchvar").Text() + ctx.Var("nosuchvar").Type().String())
+}
 `
 
 type inst struct {
 	name, ctor string
 	d          *filt.DExpr
+	needY      bool // mentions m["y"]: only for the shapes that bind it
 }
 
 func insts() []inst {
@@ -154,53 +187,69 @@ func insts() []inst {
 		return filt.Sel(path, x)
 	}
 	return []inst{
-		{"Pure", "makePureFilter", filt.Sel("Pure", x)},
-		{"Const", "makeConstFilter", filt.Sel("Const", x)},
-		{"ConstSlice", "makeConstSliceFilter", filt.Sel("ConstSlice", x)},
-		{"Addressable", "makeAddressableFilter", filt.Sel("Addressable", x)},
-		{"Comparable", "makeComparableFilter", filt.Sel("Comparable", x)},
-		{"Type.Is:int", "makeTypeIsFilter", filt.Call("Type.Is", x, filt.Str("int"))},
-		{"Type.Is:[]$t", "makeTypeIsFilter", filt.Call("Type.Is", x, filt.Str("[]$t"))},
-		{"Type.Is:$t", "makeTypeIsFilter", filt.Call("Type.Is", x, filt.Str("$t"))},
-		{"Type.Underlying.Is:int", "makeTypeIsFilter/underlying", filt.Call("Type.Underlying.Is", x, filt.Str("int"))},
-		{"Type.ConvertibleTo", "makeTypeConvertibleToFilter", filt.Call("Type.ConvertibleTo", x, filt.Str("string"))},
-		{"Type.AssignableTo", "makeTypeAssignableToFilter", filt.Call("Type.AssignableTo", x, filt.Str("int"))},
-		{"Type.Implements", "makeTypeImplementsFilter", filt.Call("Type.Implements", x, filt.Str("error"))},
-		{"Type.HasMethod", "makeTypeHasMethodFilter", filt.Call("Type.HasMethod", x, filt.Str("fmt.Stringer.String"))},
-		{"Type.HasPointers", "makeTypeHasPointersFilter", filt.Call("Type.HasPointers", x)},
-		{"Type.OfKind:integer", "makeTypeOfKindFilter", filt.Call("Type.OfKind", x, filt.Str("integer"))},
-		{"Type.OfKind:signed", "makeTypeIsSignedFilter", filt.Call("Type.OfKind", x, filt.Str("signed"))},
-		{"Type.OfKind:int", "makeTypeIsIntUintFilter", filt.Call("Type.OfKind", x, filt.Str("int"))},
-		{"Type.Underlying.OfKind:numeric", "makeTypeOfKindFilter", filt.Call("Type.Underlying.OfKind", x, filt.Str("numeric"))},
-		{"Type.Size:const", "makeTypeSizeConstFilter", filt.Bin("EQL", op("Type.Size"), filt.Int(8))},
-		{"Type.Size:var", "makeTypeSizeFilter", filt.Bin("LEQ", op("Type.Size"), op("Type.Size"))},
-		{"Type.IdenticalTo", "makeTypesIdenticalFilter", filt.Call("Type.IdenticalTo", x, filt.Index(x))},
-		{"Value.Int:const", "makeValueIntConstFilter", filt.Bin("GTR", op("Value.Int"), filt.Int(1))},
-		{"Value.Int:var", "makeValueIntFilter", filt.Bin("EQL", op("Value.Int"), op("Value.Int"))},
-		{"Text:const", "makeTextConstFilter", filt.Bin("NEQ", op("Text"), filt.Str("a"))},
-		{"Text:var", "makeTextFilter", filt.Bin("EQL", op("Text"), op("Text"))},
-		{"Text.Matches", "makeTextMatchesFilter", filt.Call("Text.Matches", x, filt.Str("a"))},
-		{"Line:const", "makeLineConstFilter", filt.Bin("GTR", op("Line"), filt.Int(3))},
-		{"Line:var", "makeLineFilter", filt.Bin("EQL", op("Line"), op("Line"))},
-		{"Node.Is:Expr", "makeNodeIsFilter", filt.Call("Node.Is", x, filt.Str("Expr"))},
-		{"Node.Is:Ident", "makeNodeIsFilter", filt.Call("Node.Is", x, filt.Str("Ident"))},
-		{"Object.Is", "makeObjectIsFilter", filt.Call("Object.Is", x, filt.Str("Var"))},
-		{"Object.IsGlobal", "makeObjectIsGlobalFilter", filt.Call("Object.IsGlobal", x)},
-		{"Object.IsVariadicParam", "makeObjectIsVariadicParamFilter", filt.Call("Object.IsVariadicParam", x)},
-		{"Contains", "makeVarContainsFilter", filt.Call("Contains", x, filt.Str("gi"))},
-		{"Contains:var", "makeVarContainsFilter", filt.Call("Contains", x, filt.Str("$x"))},
-		{"Filter:type", "makeCustomVarFilter", filt.Call("Filter", x, filt.Ident("okFilter"))},
-		{"Filter:size", "makeCustomVarFilter", filt.Call("Filter", x, filt.Ident("sizeFilter"))},
-		{"Filter:under", "makeCustomVarFilter", filt.Call("Filter", x, filt.Ident("underFilter"))},
-		{"File.Imports", "makeFileImportsFilter", filt.Call("File.Imports", "", filt.Str("fmt"))},
-		{"File.Name.Matches", "makeFileNameMatchesFilter", filt.Call("File.Name.Matches", "", filt.Str("go$"))},
-		{"File.PkgPath.Matches", "makeFilePkgPathMatchesFilter", filt.Call("File.PkgPath.Matches", "", filt.Str("t"))},
-		{"GoVersion", "makeGoVersionFilter", filt.Call("GoVersion.GreaterEqThan", "", filt.Str("1.18"))},
-		{"Deadcode", "makeDeadcodeFilter", filt.Not(filt.Call("Deadcode", ""))},
-		{"Node.Parent.Is", "makeRootParentNodeIsFilter", filt.Or(filt.Call("Node.Parent.Is", "$$", filt.Str("ExprStmt")), filt.Not(filt.Call("Node.Parent.Is", "$$", filt.Str("Expr"))))},
-		{"SinkType.Is:int", "makeRootSinkTypeIsFilter", filt.Not(filt.Call("SinkType.Is", "$$", filt.Str("int")))},
-		{"SinkType.Is:$t", "makeRootSinkTypeIsFilter", filt.Or(filt.Call("SinkType.Is", "$$", filt.Str("$t")), filt.Sel("Pure", x))},
-		{"true", "", nil},
+		{"Pure", "makePureFilter", filt.Sel("Pure", x), false},
+		{"Const", "makeConstFilter", filt.Sel("Const", x), false},
+		{"ConstSlice", "makeConstSliceFilter", filt.Sel("ConstSlice", x), false},
+		{"Addressable", "makeAddressableFilter", filt.Sel("Addressable", x), false},
+		{"Comparable", "makeComparableFilter", filt.Sel("Comparable", x), false},
+		{"Type.Is:int", "makeTypeIsFilter", filt.Call("Type.Is", x, filt.Str("int")), false},
+		{"Type.Is:[]$t", "makeTypeIsFilter", filt.Call("Type.Is", x, filt.Str("[]$t")), false},
+		{"Type.Is:$t", "makeTypeIsFilter", filt.Call("Type.Is", x, filt.Str("$t")), false},
+		{"Type.Underlying.Is:int", "makeTypeIsFilter/underlying", filt.Call("Type.Underlying.Is", x, filt.Str("int")), false},
+		{"Type.ConvertibleTo", "makeTypeConvertibleToFilter", filt.Call("Type.ConvertibleTo", x, filt.Str("string")), false},
+		{"Type.AssignableTo", "makeTypeAssignableToFilter", filt.Call("Type.AssignableTo", x, filt.Str("int")), false},
+		{"Type.Implements", "makeTypeImplementsFilter", filt.Call("Type.Implements", x, filt.Str("error")), false},
+		{"Type.HasMethod", "makeTypeHasMethodFilter", filt.Call("Type.HasMethod", x, filt.Str("fmt.Stringer.String")), false},
+		{"Type.HasPointers", "makeTypeHasPointersFilter", filt.Call("Type.HasPointers", x), false},
+		{"Type.OfKind:integer", "makeTypeOfKindFilter", filt.Call("Type.OfKind", x, filt.Str("integer")), false},
+		{"Type.OfKind:signed", "makeTypeIsSignedFilter", filt.Call("Type.OfKind", x, filt.Str("signed")), false},
+		{"Type.OfKind:int", "makeTypeIsIntUintFilter", filt.Call("Type.OfKind", x, filt.Str("int")), false},
+		{"Type.Underlying.OfKind:numeric", "makeTypeOfKindFilter", filt.Call("Type.Underlying.OfKind", x, filt.Str("numeric")), false},
+		{"Type.Size:const", "makeTypeSizeConstFilter", filt.Bin("EQL", op("Type.Size"), filt.Int(8)), false},
+		{"Type.Size:var", "makeTypeSizeFilter", filt.Bin("LEQ", op("Type.Size"), op("Type.Size")), false},
+		{"Type.IdenticalTo", "makeTypesIdenticalFilter", filt.Call("Type.IdenticalTo", x, filt.Index(x)), false},
+		{"Value.Int:const", "makeValueIntConstFilter", filt.Bin("GTR", op("Value.Int"), filt.Int(1)), false},
+		{"Value.Int:var", "makeValueIntFilter", filt.Bin("EQL", op("Value.Int"), op("Value.Int")), false},
+		{"Text:const", "makeTextConstFilter", filt.Bin("NEQ", op("Text"), filt.Str("a")), false},
+		{"Text:var", "makeTextFilter", filt.Bin("EQL", op("Text"), op("Text")), false},
+		{"Text.Matches", "makeTextMatchesFilter", filt.Call("Text.Matches", x, filt.Str("a")), false},
+		{"Line:const", "makeLineConstFilter", filt.Bin("GTR", op("Line"), filt.Int(3)), false},
+		{"Line:var", "makeLineFilter", filt.Bin("EQL", op("Line"), op("Line")), false},
+		{"Node.Is:Expr", "makeNodeIsFilter", filt.Call("Node.Is", x, filt.Str("Expr")), false},
+		{"Node.Is:Ident", "makeNodeIsFilter", filt.Call("Node.Is", x, filt.Str("Ident")), false},
+		{"Object.Is", "makeObjectIsFilter", filt.Call("Object.Is", x, filt.Str("Var")), false},
+		{"Object.IsGlobal", "makeObjectIsGlobalFilter", filt.Call("Object.IsGlobal", x), false},
+		{"Object.IsVariadicParam", "makeObjectIsVariadicParamFilter", filt.Call("Object.IsVariadicParam", x), false},
+		{"Contains", "makeVarContainsFilter", filt.Call("Contains", x, filt.Str("gi")), false},
+		{"Contains:var", "makeVarContainsFilter", filt.Call("Contains", x, filt.Str("$x")), false},
+		{"Filter:type", "makeCustomVarFilter", filt.Call("Filter", x, filt.Ident("okFilter")), false},
+		{"Filter:size", "makeCustomVarFilter", filt.Call("Filter", x, filt.Ident("sizeFilter")), false},
+		{"Filter:under", "makeCustomVarFilter", filt.Call("Filter", x, filt.Ident("underFilter")), false},
+		{"File.Imports", "makeFileImportsFilter", filt.Call("File.Imports", "", filt.Str("fmt")), false},
+		{"File.Name.Matches", "makeFileNameMatchesFilter", filt.Call("File.Name.Matches", "", filt.Str("go$")), false},
+		{"File.PkgPath.Matches", "makeFilePkgPathMatchesFilter", filt.Call("File.PkgPath.Matches", "", filt.Str("t")), false},
+		{"GoVersion", "makeGoVersionFilter", filt.Call("GoVersion.GreaterEqThan", "", filt.Str("1.18")), false},
+		{"Deadcode", "makeDeadcodeFilter", filt.Not(filt.Call("Deadcode", "")), false},
+		{"Node.Parent.Is", "makeRootParentNodeIsFilter", filt.Or(filt.Call("Node.Parent.Is", "$$", filt.Str("ExprStmt")), filt.Not(filt.Call("Node.Parent.Is", "$$", filt.Str("Expr")))), false},
+		{"SinkType.Is:int", "makeRootSinkTypeIsFilter", filt.Not(filt.Call("SinkType.Is", "$$", filt.Str("int"))), false},
+		{"SinkType.Is:$t", "makeRootSinkTypeIsFilter", filt.Or(filt.Call("SinkType.Is", "$$", filt.Str("$t")), filt.Sel("Pure", x)), false},
+		{"true", "", nil, false},
+		// closures with two operands: one capture absent, the other present, in both orders
+		{"Line:xy", "", filt.Bin("EQL", filt.Sel("Line", "x"), filt.Sel("Line", "y")), true},
+		{"Line:yx", "", filt.Bin("LSS", filt.Sel("Line", "y"), filt.Sel("Line", "x")), true},
+		{"Text:xy", "", filt.Bin("NEQ", filt.Sel("Text", "x"), filt.Sel("Text", "y")), true},
+		{"Text:yx", "", filt.Bin("LSS", filt.Sel("Text", "y"), filt.Sel("Text", "x")), true},
+		{"Value.Int:xy", "", filt.Bin("EQL", filt.Call("Value.Int", "x"), filt.Call("Value.Int", "y")), true},
+		{"Value.Int:yx", "", filt.Bin("GEQ", filt.Call("Value.Int", "y"), filt.Call("Value.Int", "x")), true},
+		{"Type.Size:xy", "", filt.Bin("LEQ", filt.Sel("Type.Size", "x"), filt.Sel("Type.Size", "y")), true},
+		{"Type.Size:yx", "", filt.Bin("NEQ", filt.Sel("Type.Size", "y"), filt.Sel("Type.Size", "x")), true},
+		{"Type.IdenticalTo:xy", "", filt.Call("Type.IdenticalTo", "x", filt.Index("y")), true},
+		{"Type.IdenticalTo:yx", "", filt.Call("Type.IdenticalTo", "y", filt.Index("x")), true},
+		{"Contains:x has $y", "", filt.Call("Contains", "x", filt.Str("$y")), true},
+		{"Contains:y has $x", "", filt.Call("Contains", "y", filt.Str("$x")), true},
+		{"Contains:x has f($y)", "", filt.Or(filt.Call("Contains", "x", filt.Str("f1($*y)")), filt.Call("Contains", "y", filt.Str("$x + $x"))), true},
+		{"both", "", filt.And(filt.Not(filt.Sel("Pure", "x")), filt.Or(filt.Sel("Const", "y"), filt.Call("Text.Matches", "y", filt.Str("a")))), true},
+		{"true:xy", "", nil, true},
 	}
 }
 
@@ -220,6 +269,7 @@ type result struct {
 	Pattern  string `json:"pattern"`
 	Where    string `json:"where"`
 	Extra    string `json:"extra,omitempty"`
+	Do       string `json:"do,omitempty"`
 	Trunc    int    `json:"trunc"`
 	GoVer    string `json:"gover"`
 	Reused   bool   `json:"reused"`
@@ -234,6 +284,7 @@ type ruleT struct {
 	in    inst
 	sh    shape
 	extra string
+	do    string
 }
 
 // run runs the engine and checks every report as it is delivered.
@@ -312,18 +363,37 @@ func main() {
 	var rules []ruleT
 	for _, in := range insts() {
 		for _, sh := range shapes {
-			if sh.name == "sinkctx" && in.d != nil && strings.Contains(in.d.Go(), "m[\"x\"]") {
+			if noX(sh) && in.d != nil && strings.Contains(in.d.Go(), "m[\"x\"]") {
 				continue // no $x in that pattern: only the whole-match and file-level predicates apply
+			}
+			if in.needY != sh.hasY {
+				continue
 			}
 			rules = append(rules, ruleT{in: in, sh: sh})
 		}
 	}
 	// location variants: report At() a capture of every shape
 	for _, sh := range shapes {
-		if sh.name == "sinkctx" {
+		if noX(sh) {
 			continue
 		}
 		rules = append(rules, ruleT{in: inst{name: "At", ctor: ""}, sh: sh, extra: ".At(m[\"x\"])"})
+		if sh.hasY {
+			rules = append(rules, ruleT{in: inst{name: "At:y", ctor: ""}, sh: sh, extra: ".At(m[\"y\"])"})
+		}
+	}
+	// Do() instead of Report(): the message and the suggestion are computed by a bytecode function that asks for the
+	// text and the type of the capture (and of a variable the pattern does not bind)
+	for _, sh := range shapes {
+		if isComment(sh) || sh.name == "two:comment" {
+			continue // "can't use Do() with MatchComment() yet": a load error
+		}
+		for _, fn := range []string{"doText", "doType", "doOther"} {
+			rules = append(rules, ruleT{in: inst{name: "Do:" + fn, ctor: ""}, sh: sh, do: fn})
+			if !noX(sh) {
+				rules = append(rules, ruleT{in: inst{name: "Do:" + fn + "+At", ctor: ""}, sh: sh, do: fn, extra: ".At(m[\"x\"])"})
+			}
+		}
 	}
 	type ctxT struct {
 		trunc  int
@@ -344,9 +414,18 @@ func main() {
 	mkRule := func(r ruleT, j int) filt.Rule {
 		fr := filt.Rule{Name: fmt.Sprintf("g%d", j), Pattern: fmt.Sprintf(r.sh.pattern, j), Where: r.in.d, Extra: ".\n\t\tSuggest(`$x`)" + r.extra,
 			Report: fmt.Sprintf("$x|$$|g%d", j)}
-		if r.sh.name == "sinkctx" {
+		if noX(r.sh) {
 			fr.Extra = ".\n\t\tSuggest(`$$`)"
 			fr.Report = fmt.Sprintf("$$|g%d", j)
+		}
+		if r.sh.hasY {
+			fr.Extra = ".\n\t\tSuggest(`$y`)" + r.extra
+			fr.Report = fmt.Sprintf("$x|$y|$$|g%d", j)
+		}
+		fr.Comment = isComment(r.sh) || r.sh.name == "two:comment"
+		if r.do != "" {
+			fr.Do = r.do
+			fr.Extra = r.extra
 		}
 		return fr
 	}
@@ -376,7 +455,7 @@ func main() {
 		if r.in.d != nil {
 			w = r.in.d.Go()
 		}
-		enc.Encode(result{K: "run", Inst: r.in.name, Ctor: r.in.ctor, Shape: r.sh.name, Pattern: r.sh.pattern, Where: w, Extra: r.extra,
+		enc.Encode(result{K: "run", Inst: r.in.name, Ctor: r.in.ctor, Shape: r.sh.name, Pattern: r.sh.pattern, Where: w, Extra: r.extra, Do: r.do,
 			Trunc: c.trunc, GoVer: c.gover, Reused: c.reused, LoadErr: lerr, Panic: pmsg, Bad: bads, Reports: n})
 	}
 	for _, c := range ctxs {
